@@ -235,3 +235,171 @@ Proof.
         eapply S; eauto.
     + discriminate.
 Qed.
+
+(* ====================================================================== regexEscape *)
+Lemma N_mem_In : forall c l, N_mem c l = true <-> In c l.
+Proof.
+  induction l; simpl; [split; [discriminate|tauto]|].
+  rewrite orb_true_iff, IHl, N.eqb_eq. split; intros [H|H]; auto.
+Qed.
+
+(* obligations on the table dumped from the interpreter (re._special_chars_map) *)
+Lemma re_special_covers_meta : forallb (fun c => N_mem c gen_re_special) re_meta = true.
+Proof. vm_compute. reflexivity. Qed.
+Lemma re_special_not_alnum : forallb (fun c => negb (ascii_alnum c)) gen_re_special = true.
+Proof. vm_compute. reflexivity. Qed.
+
+Lemma regex_escape_cons : forall c s,
+  regex_escape (c :: s) = (if N_mem c gen_re_special then [92%N; c] else [c]) ++ regex_escape s.
+Proof. reflexivity. Qed.
+
+Lemma pat_literal_escaped : forall c p, ascii_alnum c = false ->
+  pat_literal (92%N :: c :: p) = option_map (cons c) (pat_literal p).
+Proof. intros. cbn [pat_literal]. rewrite N.eqb_refl, H. reflexivity. Qed.
+Lemma pat_literal_plain : forall c p, (c =? 92)%N = false -> N_mem c re_meta = false ->
+  pat_literal (c :: p) = option_map (cons c) (pat_literal p).
+Proof. intros. cbn [pat_literal]. rewrite H, H0. reflexivity. Qed.
+
+Lemma regex_escape_literal : forall s, pat_literal (regex_escape s) = Some s.
+Proof.
+  induction s as [|c s IH]; [reflexivity|].
+  rewrite regex_escape_cons.
+  destruct (N_mem c gen_re_special) eqn:M.
+  - pose proof re_special_not_alnum as A. rewrite forallb_forall in A.
+    apply N_mem_In in M. apply A in M. apply negb_true_iff in M.
+    change ([92%N; c] ++ regex_escape s) with (92%N :: c :: regex_escape s).
+    rewrite pat_literal_escaped, IH by exact M. reflexivity.
+  - pose proof re_special_covers_meta as C. rewrite forallb_forall in C.
+    change ([c] ++ regex_escape s) with (c :: regex_escape s).
+    rewrite pat_literal_plain, IH; [reflexivity| |].
+    + destruct (c =? 92)%N eqn:E; [|reflexivity].
+      apply N.eqb_eq in E. subst. assert (In 92%N re_meta) as H by (vm_compute; tauto). apply C in H. congruence.
+    + destruct (N_mem c re_meta) eqn:M2; [|reflexivity].
+      apply N_mem_In in M2. apply C in M2. congruence.
+Qed.
+
+(* the escaped pattern, read as a literal pattern, matches exactly s *)
+Definition matches_lit (p t : str) : Prop := pat_literal p = Some t.
+Theorem regex_escape_exact : forall s t, matches_lit (regex_escape s) t <-> t = s.
+Proof. unfold matches_lit. intros. rewrite regex_escape_literal. split; congruence. Qed.
+
+(* ====================================================================== URL encoding is reversible *)
+Ltac Zify.zify_post_hook ::= Z.div_mod_to_equations.
+
+Lemma Some_inj : forall {A} (a b : A), Some a = Some b -> a = b.
+Proof. congruence. Qed.
+
+Ltac nfacts c :=
+  pose proof (N.div_mod c 64); pose proof (N.mod_lt c 64);
+  pose proof (N.div_mod (c / 64) 64); pose proof (N.mod_lt (c / 64) 64);
+  pose proof (N.div_mod (c / 4096) 64); pose proof (N.mod_lt (c / 4096) 64);
+  pose proof (N.div_div c 64 64); pose proof (N.div_div c 4096 64);
+  change (64 * 64)%N with 4096%N in *; change (4096 * 64)%N with 262144%N in *.
+
+Definition scalar (c : N) : bool := ((c <? 55296) || (57343 <? c) && (c <? 1114112))%N.
+
+Lemma utf8_enc1_scalar : forall c, scalar c = true -> exists b, utf8_enc1 c = Some b.
+Proof. unfold scalar, utf8_enc1. intros c H. repeat match goal with |- context [if ?x then _ else _] => destruct x eqn:? end; eauto; lia. Qed.
+
+Lemma utf8_enc1_bytes : forall c b, utf8_enc1 c = Some b -> Forall (fun x => x < 256)%N b.
+Proof.
+  unfold utf8_enc1. intros c b H.
+  repeat match type of H with context [if ?x then _ else _] => destruct x eqn:? end;
+    first [discriminate | apply Some_inj in H; subst b]; nfacts c; repeat (apply Forall_cons; [lia|]); apply Forall_nil.
+Qed.
+
+Lemma dec1 : forall b0 t, (b0 < 128)%N -> utf8_decode (b0 :: t) = option_map (cons b0) (utf8_decode t).
+Proof. intros. cbn [utf8_decode]. replace (b0 <? 128)%N with true by lia. reflexivity. Qed.
+Lemma dec2 : forall b0 b1 t, (192 <= b0 < 224)%N -> (128 <= b1 < 192)%N ->
+  utf8_decode (b0 :: b1 :: t) = option_map (cons ((b0 - 192) * 64 + (b1 - 128))%N) (utf8_decode t).
+Proof.
+  intros. cbn [utf8_decode]. unfold cont.
+  replace (b0 <? 128)%N with false by lia. replace (b0 <? 192)%N with false by lia. replace (b0 <? 224)%N with true by lia.
+  replace ((128 <=? b1) && (b1 <? 192))%N with true by lia. reflexivity.
+Qed.
+Lemma dec3 : forall b0 b1 b2 t, (224 <= b0 < 240)%N -> (128 <= b1 < 192)%N -> (128 <= b2 < 192)%N ->
+  utf8_decode (b0 :: b1 :: b2 :: t) = option_map (cons ((b0 - 224) * 4096 + (b1 - 128) * 64 + (b2 - 128))%N) (utf8_decode t).
+Proof.
+  intros. cbn [utf8_decode]. unfold cont.
+  replace (b0 <? 128)%N with false by lia. replace (b0 <? 192)%N with false by lia. replace (b0 <? 224)%N with false by lia.
+  replace (b0 <? 240)%N with true by lia.
+  replace ((128 <=? b1) && (b1 <? 192))%N with true by lia. replace ((128 <=? b2) && (b2 <? 192))%N with true by lia. reflexivity.
+Qed.
+Lemma dec4 : forall b0 b1 b2 b3 t, (240 <= b0 < 248)%N -> (128 <= b1 < 192)%N -> (128 <= b2 < 192)%N -> (128 <= b3 < 192)%N ->
+  utf8_decode (b0 :: b1 :: b2 :: b3 :: t)
+  = option_map (cons ((b0 - 240) * 262144 + (b1 - 128) * 4096 + (b2 - 128) * 64 + (b3 - 128))%N) (utf8_decode t).
+Proof.
+  intros. cbn [utf8_decode]. unfold cont.
+  replace (b0 <? 128)%N with false by lia. replace (b0 <? 192)%N with false by lia. replace (b0 <? 224)%N with false by lia.
+  replace (b0 <? 240)%N with false by lia. replace (b0 <? 248)%N with true by lia.
+  replace ((128 <=? b1) && (b1 <? 192))%N with true by lia. replace ((128 <=? b2) && (b2 <? 192))%N with true by lia.
+  replace ((128 <=? b3) && (b3 <? 192))%N with true by lia. reflexivity.
+Qed.
+
+Lemma utf8_decode_enc1 : forall c b rest, utf8_enc1 c = Some b ->
+  utf8_decode (b ++ rest) = option_map (cons c) (utf8_decode rest).
+Proof.
+  unfold utf8_enc1. intros c b rest H.
+  repeat match type of H with context [if ?x then _ else _] => destruct x eqn:? end;
+    first [discriminate | apply Some_inj in H; subst b]; nfacts c.
+  - change ([c] ++ rest) with (c :: rest). apply dec1. lia.
+  - change (utf8_decode ((192 + c / 64)%N :: (128 + c mod 64)%N :: rest) = option_map (cons c) (utf8_decode rest)).
+    rewrite dec2 by lia. f_equal. f_equal. lia.
+  - change (utf8_decode ((224 + c / 4096)%N :: (128 + (c / 64) mod 64)%N :: (128 + c mod 64)%N :: rest)
+            = option_map (cons c) (utf8_decode rest)).
+    rewrite dec3 by lia. f_equal. f_equal. lia.
+  - change (utf8_decode ((240 + c / 262144)%N :: (128 + (c / 4096) mod 64)%N :: (128 + (c / 64) mod 64)%N :: (128 + c mod 64)%N :: rest)
+            = option_map (cons c) (utf8_decode rest)).
+    rewrite dec4 by lia. f_equal. f_equal. lia.
+Qed.
+
+Lemma utf8_roundtrip : forall s bs, utf8_encode s = Some bs -> utf8_decode bs = Some s /\ Forall (fun x => x < 256)%N bs.
+Proof.
+  induction s as [|c s IH]; simpl; intros bs H; [inv H; auto|].
+  destruct (utf8_enc1 c) as [b|] eqn:E; [|discriminate]. destruct (utf8_encode s) as [r|] eqn:R; [|discriminate]. inv H.
+  destruct (IH _ eq_refl) as [D F]. split.
+  - rewrite (utf8_decode_enc1 _ _ _ E), D. reflexivity.
+  - apply Forall_app. split; auto. eapply utf8_enc1_bytes; eauto.
+Qed.
+
+Lemma hex_val_digit : forall d, (d < 16)%N -> hex_val (hex_digit d) = Some d.
+Proof.
+  unfold hex_val, hex_digit. intros d H. destruct (d <? 10)%N eqn:E.
+  - replace ((48 <=? 48 + d) && (48 + d <=? 57))%N with true by lia. f_equal. lia.
+  - replace ((48 <=? 55 + d) && (55 + d <=? 57))%N with false by lia.
+    replace ((65 <=? 55 + d) && (55 + d <=? 70))%N with true by lia. f_equal. lia.
+Qed.
+
+Lemma percent_decode_quote : forall safe bs, N_mem 37%N safe = false -> Forall (fun x => x < 256)%N bs ->
+  percent_decode (flat_map (quote_byte safe) bs) = Some bs.
+Proof.
+  intros safe bs S F. induction F as [|b bs Hb F IH]; [reflexivity|].
+  simpl flat_map. unfold quote_byte at 1. destruct (N_mem b safe) eqn:M.
+  - simpl app. cbn [percent_decode]. destruct (b =? 37)%N eqn:E; [apply N.eqb_eq in E; congruence|]. rewrite IH. reflexivity.
+  - pose proof (N.div_mod b 16). pose proof (N.mod_lt b 16).
+    simpl app. cbn [percent_decode]. rewrite N.eqb_refl, !hex_val_digit, IH by lia. f_equal. f_equal. lia.
+Qed.
+
+(* obligation on the generated tables: '%' is never left unescaped *)
+Lemma percent_not_safe : forallb (fun p => negb (N_mem 37%N (gen_url_always_safe ++ filter (fun c => c <? 128)%N (snd p)))) gen_url_safe = true.
+Proof. vm_compute. reflexivity. Qed.
+
+Theorem url_quote_reversible : forall f safe s r, url_safe_of f = Some safe -> url_quote safe s = Some r ->
+  url_unquote r = Some s.
+Proof.
+  unfold url_safe_of, url_quote, url_unquote. intros f safe s r A Q.
+  destruct (utf8_encode s) as [bs|] eqn:E; [|discriminate]. inv Q.
+  destruct (utf8_roundtrip _ _ E) as [D F].
+  rewrite percent_decode_quote; auto.
+  pose proof percent_not_safe as P. rewrite forallb_forall in P. apply assoc_In in A. apply P in A. simpl in A.
+  apply negb_true_iff in A. exact A.
+Qed.
+
+Theorem url_quote_total_on_scalars : forall safe s, forallb scalar s = true -> exists r, url_quote safe s = Some r.
+Proof.
+  unfold url_quote. intros safe s H.
+  assert (exists bs, utf8_encode s = Some bs) as [bs ->]; [|eauto].
+  induction s as [|c s IH]; simpl in *; [eauto|].
+  apply andb_true_iff in H. destruct H as [Hc Hs]. destruct (utf8_enc1_scalar _ Hc) as [b ->].
+  destruct (IH Hs) as [r ->]. eauto.
+Qed.
